@@ -211,7 +211,11 @@ func (e *endpoint) dispatch() (bool, *tcpip.Error) {
 	//如果比头部长度还小，直接丢弃
 	if n <= e.hdrSize {
 		log.Printf("@链路层 fdbased: read %d bytes < header bytest %d,比头部长度还小直接丢弃", n, e.hdrSize)
-		return false, nil
+		// Drop the runt frame but keep dispatching: returning false here
+		// ended the dispatch loop and the interface never received again.
+		// (A read of 0 bytes is end-of-file on socket-backed descriptors
+		// and still ends the loop.)
+		return n > 0, nil
 	}
 	var (
 		p                             tcpip.NetworkProtocolNumber
